@@ -211,7 +211,12 @@ def render_alone(rec, variant):
     lines += pad_lines(start, A, before)
     for _, n in here:
         lines.append(n + ":")
-    lines.append(instr_text(rec, variant, names))
+    if variant % 7 == 3 and near:
+        # the instruction as the body of a one-copy block: labels (numeric local ones too) of the routine around the block
+        # are visible inside it, and the copy stands where the statement stood
+        lines += [".repeat 1 {", instr_text(rec, variant, names), "}"]
+    else:
+        lines.append(instr_text(rec, variant, names))
     lines += pad_lines(A + L, A + L + post, after)
     if variant % 2 == 1:
         lines += aliases
